@@ -259,8 +259,10 @@ def locate(binary, a, qargs, rust_args, coq_expr):
     rust = [tuple(int(x) for x in l.split()[1:]) for l in r.stdout.splitlines() if l.startswith('D ')]
     p = os.path.join(a.build, 'cases_detail.v')
     with open(p, 'w') as f:
-        f.write(PRELUDE + 'Eval vm_compute in (map %s all_u16).\n' % coq_expr)
-    vals = coq_values(compile_v(p, qargs))[0]
+        f.write(PRELUDE + 'Definition detail_f := %s.\n' % coq_expr)
+        for base in range(63 * 1024, -1, -1024):   # 64 chunks, words in decreasing order like the binary
+            f.write('Eval vm_compute in (map (fun i => detail_f (%d + i)) (below 1024)).\n' % base)
+    vals = [x for chunk in coq_values(compile_v(p, qargs)) for x in chunk]
     coq = [tuple(vals[i:i + 4]) for i in range(0, len(vals), 4)]
     for x, y in zip(rust, coq):
         if x != y:
